@@ -3,6 +3,7 @@ Props/C03.lean — C03 "Files stay structurally valid through any edit history".
 Formats with a Lean container model: FLAC (and the Ogg page layer, Props/C15.lean).
 -/
 import MutagenModel.Proofs.Container.Flac
+import MutagenModel.Proofs.Container.Id3File
 set_option linter.unusedVariables false
 namespace Mutagen.C03
 open Mutagen Mutagen.FlacC
@@ -26,5 +27,34 @@ theorem flac_save_bytes (B : Nat) (hB : 0 < B) (L : Layout) (blocks : List Block
     (hsz : ∀ b ∈ blocks, b.data.length ≤ maxSize) (s : FS) (hs : s.data = render L) :
     ∃ s', saveM B L blocks pad Env.clean s = (.ok (), s') ∧ s'.data = render (msave L blocks false pad) :=
   saveM_clean B hB L blocks pad hsz s hs
+
+/-! ## free-standing ID3 files -/
+
+/-- after an ID3 save the file starts with a header that a reader accepts and whose (syncsafe)
+size field equals the extent of what it covers: `ID3Header` on the saved file reports
+`10 + len(frames) + padding`, and exactly that many bytes precede the audio -/
+theorem id3_save_header_consistent (L : Id3F.Layout) (h : L.OK) (vmaj : Nat) (hvm : vmaj = 3 ∨ vmaj = 4) (frames : Bytes)
+    (pad : PadChoice) (v1opt : Nat) (blk : Bytes) (p : Nat)
+    (hp : getPadding pad ((L.tag.length : Int) - (frames.length + 10 : Nat)) (L.audio.length + L.v1.length) = p)
+    (hfit : frames.length + p < 2 ^ 28) :
+    ∃ out, Id3F.save L.render vmaj frames pad v1opt blk = .ok out ∧
+      Id3F.headerSize out = .ok (some (frames.length + p + 10)) ∧
+      out.drop (frames.length + p + 10) = L.audio ++ Id3F.newV1 L.v1 v1opt blk ∧
+      (out.drop 10).take frames.length = frames ∧
+      ((out.drop 10).drop frames.length).take p = zeros p := by
+  obtain ⟨hd, hh, hs⟩ := Id3F.save_layout L h vmaj hvm frames pad v1opt blk p hp hfit
+  refine ⟨_, hs, ?_, ?_, ?_, ?_⟩
+  · have := Id3F.headerSize_tag vmaj (frames.length + p) (by omega) hd
+      (frames ++ zeros p ++ L.audio ++ Id3F.newV1 L.v1 v1opt blk) hfit hh
+    simpa [List.append_assoc] using this
+  all_goals
+    obtain ⟨a, b, c, d, h1, _⟩ := Id3F.header_ok vmaj (frames.length + p) hfit
+    rw [h1] at hh; cases hh
+  · have : (Id3F.magicID3 ++ [UInt8.ofNat vmaj, 0, 0] ++ [a, b, c, d] ++ frames ++ zeros p).length = frames.length + p + 10 := by
+      simp [Id3F.magicID3]
+    rw [List.append_assoc _ L.audio, ← this]
+    exact List.drop_left' rfl
+  · simp [Id3F.magicID3, List.append_assoc, List.take_left' rfl]
+  · simp [Id3F.magicID3, List.append_assoc, List.drop_left' rfl, List.take_left' (length_zeros p)]
 
 end Mutagen.C03
